@@ -251,7 +251,10 @@ pub fn run_builtin_totality(e: &Engine, rec: &Recorder) {
             states += 1;
             for (name, run) in [("JsonError", rj), ("QueryParamError", rq)] {
                 execs += 1;
-                if std::panic::catch_unwind(|| run(&d)).is_err() {
+                crate::rec::begin(&Script::keep_going()); // "code under test is running" for the panic hook
+                let panicked = std::panic::catch_unwind(|| run(&d)).is_err();
+                let _ = crate::rec::end();
+                if panicked {
                     rec.violation(Violation {
                         property: "C12".into(),
                         subject: format!("{} with {name}", ty_str(&root.ty, e.cat)),
